@@ -520,7 +520,7 @@ func (p *Prop) Run(t *simhook.Tape, opt simkit.RunOpt) *simkit.RunResult {
 			c.secondHistory(g)
 		}
 	}
-	res, abort := simkit.RunSolo(t, 4000000, 100000, true, body)
+	res, abort := simkit.RunSolo(t, 4000000, 5000000, true, body)
 	rr := &simkit.RunResult{Hash: uint64(c.hash), Nontrivial: c.nComb > 0, Steps: res.Steps, History: c.hist, Policy: "seq"}
 	if abort != nil && !simkit.AbortIsVerdict(abort) {
 		rr.BudgetHit = true
